@@ -272,3 +272,9 @@ package aper
 //@ loop rawLength unroll 10
 //@ loop byteLen unroll 10
 //@ loop i unroll 9
+
+// The reflection-driven traversal is outside the verifier's subset: assumed to return octets or an error.
+//@ func MarshalWithParams
+//@ trusted
+//@ func Marshal
+//@ trusted
